@@ -63,3 +63,25 @@ fn verif_rfind<'a, T, F: Fn(&&'a T) -> bool>(v: &'a Vec<T>, f: F) -> (r: Option<
     }
     None
 }
+
+fn verif_find<'a, T, F: Fn(&&'a T) -> bool>(v: &'a [T], f: F) -> (r: Option<&'a T>)
+    requires forall|i: int| 0 <= i < v@.len() ==> f.requires((&&v@[i],))
+    ensures
+        r is Some ==> exists|k: int| 0 <= k < v@.len() && *r->0 == v@[k] && f.ensures((&&v@[k],), true)
+            && forall|j: int| 0 <= j < k ==> f.ensures((&&v@[j],), false),
+        r is None ==> forall|j: int| 0 <= j < v@.len() ==> f.ensures((&&v@[j],), false),
+{
+    let mut k: usize = 0;
+    while k < v.len()
+        invariant
+            k <= v@.len(),
+            forall|i: int| 0 <= i < v@.len() ==> f.requires((&&v@[i],)),
+            forall|j: int| 0 <= j < k ==> f.ensures((&&v@[j],), false),
+        decreases v@.len() - k
+    {
+        let e = &v[k];
+        if f(&e) { return Some(e); }
+        k += 1;
+    }
+    None
+}
